@@ -604,6 +604,22 @@ def add_exdates(rng, rule, occ):
     rule["exdates"] = sorted(set(ex))
 
 
+def in_table_range(case):
+    """Every instant the implementation converts for this case — the look-back before the earliest
+    window start, the ends of the occurrences starting up to the latest window end — lies inside the
+    years the exported zone tables cover (1968 .. 2062); UTC has no table to leave."""
+    rule = case["rule"]
+    if rule["tz"] == "UTC":
+        return True
+    wins = [(case["a"], case["b"])] + [(sa, sb) for sa, sb, _ in case.get("subs", [])] + \
+           [(pa, pb) for pa, pb, _ in case.get("pre", [])]
+    lo = min(w[0] for w in wins)
+    hi = max(w[1] for w in wins)
+    per = {"daily": DAY, "weekly": 7 * DAY, "monthly": 32 * DAY, "yearly": 366 * DAY}[rule["freq"]] * rule["interval"]
+    chunk = CHUNK_S[rule["freq"]]
+    return lo - rule["dur"] - per - chunk - 3 * DAY >= SCAN_LO and hi + rule["dur"] + per + 3 * DAY <= SCAN_HI
+
+
 class RecurFamily(_LazyHeader, Family):
     case_type = "rcase"
     corr = "corr_recur"
@@ -638,9 +654,11 @@ class RecurFamily(_LazyHeader, Family):
                 # relative to the rule's period)
                 step = rng.choice([DAY, DAY, 7 * DAY, 3600])
                 for i in range(rng.choice([5, 8, 12])):
-                    made += 1
-                    yield dict(rule=copy.deepcopy(rule), a=a + i * step, b=b + i * step, rev=False, subs=[],
-                               slice=False, form=None)
+                    c = dict(rule=copy.deepcopy(rule), a=a + i * step, b=b + i * step, rev=False, subs=[],
+                             slice=False, form=None)
+                    if in_table_range(c):
+                        made += 1
+                        yield c
                 continue
             made += 1
             try:
@@ -663,6 +681,9 @@ class RecurFamily(_LazyHeader, Family):
                 self.add_nested(rng, case)
             elif rng.random() < 0.15:
                 case["rev"] = True
+            if not in_table_range(case):
+                made -= 1
+                continue           # an occurrence the windows can see would reach outside the exported zone tables
             yield case
 
     def add_nested(self, rng, case):
